@@ -1,30 +1,33 @@
 """C16 — classic decoders are total and agree with each other."""
-import vlib, gen
+import vlib, gen, gen_classic_nc
 
-LEVEL = "other"   # part of the statement is proved, the rest is decided on the implementation (see Props file)
+LEVEL = "proof"   # every conjunct of the statement has a theorem in Props/C16.v
 FAMILY = "classic"
 
 
 MANIFEST = {
- "level": 'other',
- "text": "Partly proved, partly explored. Proved for every byte string about the Gallina model: node_from_stream equals the recursive grammar, never reaches a panic site or runs out of its input-length fuel, and tree_hash_from_stream accepts the same strings with the same error, leaves the same remaining input and returns the tree hash of the same tree (for any hash function). Not proved: the same refinement for parse_triples (modelled and compared with the implementation only) and the canonical equivalence; those and memory use are decided by exploration: all strings of <= 2 bytes, structured mutations of valid encodings, random strings, through model vs implementation and the implementation's own cross-decoder comparison.",
- "note": vlib.NOTE_COMMON + " Level 'other' because the full conjunction is not proved (Props/C16.v names the missing conjuncts).",
- "technique": 'Coq proof (generic stack-decoder refinement lemma instantiated twice) + model/implementation differential run (exhaustive <= 2 bytes) + implementation search',
+ "level": 'proof',
+ "text": "Every conjunct is proved for every byte string about the Gallina model of de.rs/de_tree.rs/tools.rs/parse_atom.rs (Props/C16.v; any function in place of sha256): node_from_stream equals the recursive grammar and never reaches a panic site or runs out of its input-length fuel; tree_hash_from_stream accepts the same strings with the same error, leaves the same remaining input and returns the tree hash of the same tree; parse_triples accepts the same strings and leaves the same remaining input, never reaches one of its index/panic! sites and ends within 4|b|+4 loop iterations, its triple array read back against the input (atom bytes = blob[start+atom_offset..end], left child = next index, right child = right_index) is exactly the tree node_from_stream builds, with one triple per node, the root spanning the consumed bytes, and its hash array is the tree hash of every sub-tree in pre-order (on a truncated atom body it reports InternalError where the other two report SerializationError: same accept set, different error kind); over-allocation in the form 'the decoded tree has at most one node and one atom byte per consumed input byte', so every allocation request, array and stack of the three decoders is linear in the input; and for every input node_from_stream accepts, is_canonical_serialization is true exactly when nothing is left over and ser of the decoded tree is the input (is_canonical_serialization itself returns true or false on every byte string: its panic! is unreachable). Model vs implementation on all strings of <= 2 bytes, structured mutations of valid encodings and random strings; the implementation's own cross-decoder comparison searches the statement directly.",
+ "note": vlib.NOTE_COMMON + " Real memory use (Vec capacity growth, the allocator's own caps) is outside the model: 'no over-allocation' is the proved linear bound on what the decoders build. Byte strings are lists of N; the canonical equivalence carries the explicit all-elements-below-256 hypothesis (wf_bytes).",
+ "technique": 'Coq proof (generic stack-decoder refinement lemma instantiated twice; a separate simulation of the parse_triples loop with its in-place array updates against an annotated grammar; induction over decoder runs for the canonical equivalence) + model/implementation differential run (exhaustive <= 2 bytes) + implementation search',
 }
 
 def run(ctx):
     r = ctx.rng
     ctx.rule = ("all byte strings of length <= 2, in the thorough tier also all 3-byte strings whose first byte is at a prefix-class boundary (18 first bytes, node_from_stream only), plus structured strings: valid "
                 "encodings mutated by truncation, trailing bytes, byte substitution with prefix-class bytes, inserted "
-                "0xfe/0xff/zero-padded size fields, non-canonical prefixes, and pure random; non-trivial = distinct "
+                "0xfe/0xff/zero-padded size fields, non-canonical prefixes, and pure random; directed atoms with every prefix length 1..6 and sizes "
+                "0,1,2 and m/2, m-1, m, m+1 around every prefix-class minimum m <= 0x2000 (bare, in a pair, with a trailing byte; up to 2^20 in the thorough tier); non-trivial = distinct "
                 "string of >= 2 bytes")
-    ctx.explanation = ("Part proof, part exploration. Theorems (Props/C16.v): node_from_stream = recursive grammar on every byte string, no panic site / fuel exhaustion reachable, tree_hash_from_stream agrees with node_from_stream on accept set, error, remaining input and hash, for any hash function. Not proved: parse_triples refinement and the canonical equivalence; they are covered by the model/implementation differential run (parse_triples is modelled) and by the implementation's cross-decoder comparison ('agree'). Memory use is outside the model.")
+    ctx.explanation = ("Proof + correspondence + search. Theorems (Props/C16.v): node_from_stream = recursive grammar on every byte string, no panic site / fuel exhaustion reachable; tree_hash_from_stream and parse_triples agree with node_from_stream on accept set and remaining input, tree_hash_from_stream also on the error and the hash, parse_triples on the tree its triple array describes and on the tree hash of every sub-tree (any hash function), no index/panic! site of parse_triples reachable; decoded output linear in the consumed input; is_canonical_serialization b <-> nothing left over and ser(decoded tree) = b, for every accepted b. The model/implementation differential run covers all five functions ('de', 'th', 'tr', 'canon', 'tlen'); the implementation's cross-decoder comparison ('agree') searches the statement directly. Real memory use is outside the model.")
     ctx.proofs()
     if not ctx.build():
         return
     strings = list(gen.all_bytes_upto(2))
     strings += [gen.gen_bytes_classic(r) for _ in range(ctx.scale(6000, 40000))]
     strings += [bytes.fromhex(x) for x in ("fe00000000000161", "fc0000000001aa", "fb00000001bb", "fbffffffffff", "fc0400000000", "fe", "ff" * 50 + "80" * 51)]
+    # directed: every prefix length with sizes at the edges of every prefix-length class (canonical check)
+    strings += [b for _, b in gen_classic_nc.boundary_strings(0x2001)]
     cases = []
     for n, b in enumerate(strings):
         h = gen.hx(b)
@@ -42,6 +45,8 @@ def run(ctx):
         c3 = ["de %02x%02x%02x" % ((f,) + t) for f in firsts for t in itertools.product(range(256), repeat=2)]
         ctx.correspond("classic", c3, name="classic-3byte", nontrivial=lambda c, a, b: True)
     lines = ["agree " + gen.hx(b) for b in strings]
+    if ctx.thorough or ctx.broken:   # a broken proof/pin widens the search to the 2^20 class boundary (1 MB atoms)
+        lines += ["agree " + gen.hx(b) for l, b in gen_classic_nc.boundary_strings(0x100001) if len(b) > 0x2010]
     outs = vlib.run_impl("classic", lines)
     for l, o in zip(lines, outs):
         ctx.evaluations += 1
